@@ -92,6 +92,10 @@ func TestC06(t *testing.T) {
 					c.Count("secondary_config_scenarios", 1)
 				}
 
+				if opts.PostponeRemoval {
+					c.Count("scenarios_with_postponed_finalizer_removal", 1)
+				}
+
 				c.Case(vk.Hash(opts, o.Trace), recreated && held > 0 && o.Transforms > 0)
 
 				if k < 2 {
